@@ -30,6 +30,21 @@ class StubAssigner:
                                                  ia.MatchEvent(ia.MatchEventSubtype.alt_left_site_novel), "+"))
 
 
+_MISSING = object()
+
+
+def get_reported():
+    """the class-level 'known isoforms already reported' set, or _MISSING when the class keeps no such state"""
+    return getattr(gbmc.GraphBasedModelConstructor, "detected_known_isoforms", _MISSING)
+
+
+def set_reported(value):
+    """set (or restore) that class-level state; a class without it is left alone"""
+    if value is _MISSING or get_reported() is _MISSING:
+        return
+    gbmc.GraphBasedModelConstructor.detected_known_isoforms = value
+
+
 def make_sequence(introns, pairs, length=None):
     """reference string (1-based coordinates, region start 1) with the given dinucleotides at the intron borders"""
     length = length or (max(i[1] for i in introns) + 10)
@@ -42,12 +57,17 @@ def make_sequence(introns, pairs, length=None):
 
 def make_constructor(chr_record, params, gene_info=None, known_introns=(), reference_gene=None, matching=None,
                      known_isoforms_in_graph=None):
-    c = gbmc.GraphBasedModelConstructor.__new__(gbmc.GraphBasedModelConstructor)
-    c.gene_info = gene_info or Obj(chr_id="chr1", gene_strands={"G": "+"}, empty=lambda: reference_gene is None,
-                                   all_isoforms_introns={}, isoform_strands={}, gene_id_map={})
-    c.chr_record = chr_record
-    c.params = params
-    c.id_distributor = SimpleIDDistributor()
+    gi_ = gene_info or Obj(chr_id="chr1", gene_strands={"G": "+"}, empty=lambda: reference_gene is None,
+                           all_isoforms_introns={}, isoform_strands={}, gene_id_map={})
+    # the REAL constructor runs (so that every piece of per-instance state it sets up exists); only the two heavy collaborators it
+    # creates are replaced by the stubs while it runs
+    saved = (gbmc.LongReadAssigner, gbmc.CombinedProfileConstructor)
+    gbmc.LongReadAssigner = lambda gi, prm, *a, **k: StubAssigner(matching)
+    gbmc.CombinedProfileConstructor = lambda gi, prm, *a, **k: Obj(construct_profiles=lambda exons, polya, cage: None)
+    try:
+        c = gbmc.GraphBasedModelConstructor(gi_, chr_record, params, None, SimpleIDDistributor())
+    finally:
+        gbmc.LongReadAssigner, gbmc.CombinedProfileConstructor = saved
     c.strand_detector = StrandDetector(chr_record)
     c.intron_genes = defaultdict(set)
     if reference_gene:
